@@ -249,17 +249,19 @@ def attribAt (instrs : List NInstr) (b : Basis) (q : Option Nat) (t : Int) : Lis
 
 /-! #### The accumulation rule `_add_channel_samples`
 
-Amplitudes and detunings add up (`+=`).  In the committed tree the phases add up as well
-(`entryPhaseSum`; finding F23 / F-C06-1: a channel's phase is painted over its whole duration,
-so the sum is wrong as soon as two channels write one entry).  The repair under discussion
-(`_add_channel_samples`) does not simply add phases:
+Amplitudes and detunings add up (`+=`).  Phases used to add up as well
+(`d[..][PHASE] += cs.phase`, `entryPhaseSum` below; finding F23 / F-C06-1: a channel's phase
+is painted over its whole duration, so the sum is wrong as soon as two channels write one
+entry).  Since the repair (`fix: a pulse on a second channel of the same basis is emulated
+with its own phase`) `to_nested_dict` calls `_add_channel_samples`, which does not simply add:
 `phase = phase * (1 - only_new) + cs.phase * (1 - only_prev)` where `only_new` /
 `only_prev` say that only the added channel / only the entry so far has a non-zero amplitude.
 Structurally the phase sample of an entry is the list of channels whose (painted) phase
 samples are summed in it.  Whether an amplitude sample is non-zero is a fact about sample
 *values* (C16): it enters as the oracle `on k` ("channel `k` has a non-zero amplitude at this
 time"); amplitudes are non-negative, so the entry's amplitude so far is non-zero iff one of
-the channels added so far is on. -/
+the channels added so far is on.  The harness detects which of the two rules the tree under
+test has and expands the model's statements with that rule. -/
 
 /-- Phase part of `_add_channel_samples` on one sample: `prev` are the channels whose phases
 the entry sums so far, `prevOn` / `newOn` the two `!= 0` tests, `k` the added channel. -/
@@ -274,7 +276,7 @@ def phaseStep (on : Nat → Bool) (acc : List Nat × Bool) (k : Nat) : List Nat 
 def entryPhase (on : Nat → Bool) (writers : List Nat) : List Nat × Bool :=
   writers.foldl (phaseStep on) ([], false)
 
-/-- The committed rule (`d[..][PHASE] += cs.phase`): every writer's phase is summed. -/
+/-- The rule before the repair (`d[..][PHASE] += cs.phase`): every writer's phase is summed. -/
 def entryPhaseSum (writers : List Nat) : List Nat := writers
 
 /-- The phase sample at `t` of entry `(b, q)` of `to_nested_dict`. -/
